@@ -68,8 +68,14 @@ def replay_calculate(inp):
     from lightworks.emulator.backend.permanent import Permanent
     i, o = list(inp["in_state"]), list(inp["out_state"])
     n = len(i)
-    if len(o) != n or any(x < 0 for x in i + o) or n == 0 or n > 4 or sum(i) > 5 or sum(i) != sum(o):
+    if len(o) != n or any(x < 0 for x in i + o) or n == 0 or n > 4 or (sum(i) > 5 and n > 1) or sum(i) > 25 or sum(i) != sum(o):
         return None
+    if n == 1:
+        # one mode: perm of the k x k constant matrix u is k! u^k, so the amplitude is u^k - also for large k, where the factorials exceed 64 bits
+        u = complex(0.6, 0.8)
+        got = Permanent.calculate(np.array([[u]]), i, o)
+        want = u ** i[0]
+        return None if abs(got - want) <= 1e-9 else f"Permanent.calculate([[u]], {i}, {o}) = {got}, expected u**{i[0]} = {want}"
     rng = np.random.default_rng(7 + n)
     U = rng.normal(size=(n, n)) + 1j * rng.normal(size=(n, n))
     rows = [m for m in range(n) for _ in range(o[m])]
@@ -84,6 +90,8 @@ def replay_calculate(inp):
 
 def enum_calculate():
     import itertools
+    for k in (13, 20):                 # occupation factorials beyond 64 bits
+        yield {"in_state": [k], "out_state": [k]}
     for n in (1, 2, 3):
         for i in itertools.product(range(4), repeat=n):
             for o in itertools.product(range(4), repeat=n):
